@@ -146,7 +146,7 @@ func TestVP_C35_storage_cursor(t *testing.T) {
 	c := kit.New(t, "C35", "rapid T.Repeat on a genesis-loaded store (positions 0..7 occupied, reset per case): WriteSnapshot of fresh 1..3-transaction snapshots on the 7 genesis chains at harness-assigned positions (next, jump leaving a gap, into a gap, far away up to 2^64-1, already occupied, same snapshot twice), ReadSnapshotsSinceTopology(offset,count) with offset in {0, existing, gap, last, last+1, 2^64-1, uniform} x count in {0,1,7,500,501, 2..20}, ReadSnapshotWithTransactionsSinceTopology, ReadSnapshot(hash) for known and unknown hashes, LastSnapshot; model = list of (position, hash); a write to an occupied position must fail (error or the assertion panic) and leave the key/value dump unchanged; non-trivial = history with a listing of >=2 entries from a non-zero cursor; distinct by op trace")
 	c.Require("list>=2-from-nonzero", "offset-gap", "offset-last+1", "offset-max", "count-0", "count-500", "over-limit", "occupied-rejected", "duplicate-rejected", "gap-fill", "lookup-known", "lookup-unknown", "pos-max")
 	c.Assume("Badger transaction atomicity; snapshots are written with harness-chosen positions (the kernel's TopoWrite is the other unit)")
-	kit.SetChecks(kit.N(200, 5000))
+	kit.SetChecks(kit.N(400, 6000))
 	kit.SetSteps(30)
 	sh := vpC35Open(t)
 	serial := 0
